@@ -25,7 +25,8 @@ LEVEL = 'exploration'
 RULE = ('Hypothesis: FileSpec (1-5 dims of length 1-6, <=1 unlimited, 1-5 '
         'variables of rank 0-4 over differing dimension subsets, masked and '
         'unmasked, coordinate variables, f4/f8/i2/i4 + optional S1 variable, '
-        'attributes) x stack dimension d (any dimension, biased to ones that '
+        'attributes; a quarter of the in-memory cases add a fixed-width text '
+        'variable S2-S5 / U2-U5 without d) x stack dimension d (any dimension, biased to ones that '
         'variables use).  Family split (2/3 of cases): partition of len(d) '
         'into 1-4 consecutive non-empty pieces made by numpy slicing of the '
         'spec, each built as an independent library file, then '
@@ -118,6 +119,7 @@ def cases(draw, tier='quick'):
                     entry=entry, names=draw(pathnames(k))
                     if entry != 'method' else None,
                     order=draw(orders(k, entry)),
+                    text=draw(textvars(fs, d)),
                     **draw(coordmodes(fs, d, entry)))
     k = draw(st.integers(2, 4))
     files = [fs]
@@ -132,7 +134,27 @@ def cases(draw, tier='quick'):
     return dict(family='indep', files=files, dim=d, bare=bare, entry=entry,
                 names=draw(pathnames(k)) if entry != 'method' else None,
                 order=draw(orders(k, entry)),
+                text=draw(textvars(fs, d)),
                 **draw(coordmodes(fs, d, entry)))
+
+
+@st.composite
+def textvars(draw, fs, d):
+    """an extra fixed-width text variable (station ids, labels: dtype S2-S5
+    or U2-U5) without the stack dimension, identical in every input;
+    in-memory routes only (classic netCDF has no such type)"""
+    if draw(st.integers(0, 3)) > 0:
+        return None
+    dl = A.dlen_of(fs)
+    others = [n for n in dl if n != d]
+    dim = draw(st.sampled_from(others)) if others and draw(
+        st.integers(0, 3)) > 0 else None
+    n = dl[dim] if dim else 1
+    width = draw(st.integers(2, 5))
+    data = draw(st.lists(st.text(alphabet='ABCXYZ019', min_size=1,
+                                 max_size=width), min_size=n, max_size=n))
+    return dict(kind=draw(st.sampled_from(['S', 'U'])), width=width,
+                dim=dim, data=data)
 
 
 @st.composite
@@ -336,6 +358,18 @@ def check_case(case):
     m0 = models[0]
     ufiles = [S.build_file(s) for s in uspecs]
     files = [ufiles[i] for i in order] if order else ufiles
+    txt = case.get('text')
+    if txt and entry in ('method', 'stack_files') and mode != 'netcdf':
+        tdt = '%s%d' % (txt['kind'], txt['width'])
+        tdims = (txt['dim'],) if txt['dim'] else ()
+        tarr = np.array(txt['data'], dtype=tdt).reshape(
+            [m0.dims[x][0] for x in tdims])
+        for f_ in ufiles:
+            tv = f_.createVariable('sid', tdt, tdims)
+            tv[...] = tarr
+        for m_ in models:
+            m_.vars['sid'] = S.MVar('sid', tdims, tarr.copy(), S.OD())
+        r.label('text-variable:' + txt['kind'])
     case = dict(case, _ufiles=ufiles, _order=order)
     if mode == 'setcoords':
         for f_ in files:
